@@ -16,7 +16,7 @@ RULE = ("(a) exhaustive: every boolean mask of every shape with H*W <= 6 (quick)
         ".sub_pixel_areas, .sub_mask_native_for_sub_mask_slim) and the util functions; (b) random masks up to 6x6 with <= 16 "
         "unmasked pixels, anisotropic dyadic pixel scales, origins k/4, per-pixel sub-size maps from {1,2,4,8} (int- and float-typed), user functions "
         "= random polynomials of degree <= 3 in (y|abs y, x|abs x) with coefficients k/4 (exact in double), through "
-        "OverSamplerUniform.array_via_func_from, @over_sample on Grid2D.from_mask / GridsDataset grids with "
+        "OverSamplerUniform.array_via_func_from, @over_sample on Grid2DOverSampled, Grid2D.from_mask / GridsDataset (uniform, non_uniform, pixelization) grids with "
         "OverSamplingUniform(int | Array2D) and OverSamplingIterate, and OverSamplerIterate.array_via_func_from with "
         "schedules of 1-4 steps from {1,2,4,8}, dyadic and 0.9999-style thresholds, optional absolute tolerance; a directed stream "
         "with the threshold / absolute-tolerance decision exactly ON the boundary (f = c*y^2, pixel centres at |y| = ps/4); functions "
@@ -212,13 +212,14 @@ def gen_inputs(tier, rng):
         yield {"op": "bin", "m": m, "ss": ss, "arr": [fs(F(rng.randint(-64, 64), 8)) for _ in range(tot)], "via": via, "int": False, "fl": fl}
         yield {"op": "areas", "m": m, "ps": ps, "ss": ss, "fl": fl}
         f = rand_poly(rng)
-        yield {"op": "viafunc", "m": m, "ps": ps, "og": og, "ss": ss, "f": f, "fl": fl}
+        yield {"op": "viafunc", "m": m, "ps": ps, "og": og, "ss": ss, "f": f, "fl": fl, "via": rng.choice(["sampler", "sampler", "oversampled"])}
         # decorator: uniform int / map / all-ones map / dataset grids
         r = rng.random()
         if r < 0.3: os = {"kind": "int", "s": rng.choice([1, 2, 4, 8])}
         elif r < 0.45: os = {"kind": "map", "ss": [1] * n}
         else: os = {"kind": "map", "ss": ss, "fl": rng.random() < 0.4}
-        yield {"op": "decor", "m": m, "ps": ps, "og": og, "os": os, "f": rand_poly(rng), "via": rng.choice(["from_mask", "dataset"])}
+        yield {"op": "decor", "m": m, "ps": ps, "og": og, "os": os, "f": rand_poly(rng),
+               "via": rng.choice(["from_mask", "from_mask", "dataset", "dataset", "dataset_nu", "dataset_pixgrid"])}
     # dataset pixelization default (sub_size 4)
     for _ in range(40 if big else 8):
         m = rand_mask(rng, 4, 4, 8); ps, og = rand_geo(rng)
@@ -355,7 +356,11 @@ def run_case(inp):
     elif op == "viafunc":
         fn = np_ufun(inp["f"])
         def func(*a): g = np.array(a[-1]); return fn(g[:, 0], g[:, 1])      # func(grid) if obj is None else func(obj, grid)
-        r = sampler(ss, False).array_via_func_from(func, None if len(ss) % 2 else object())
+        if inp.get("via") == "oversampled":       # decorator branch `isinstance(grid, Grid2DOverSampled)`: func on grid.grid, then binned
+            smp = sampler(ss, False)
+            r = Profile(fn).image_2d_from(aa.Grid2DOverSampled(grid=smp.over_sampled_grid, over_sampler=smp, pixels_in_mask=len(ss)))
+        else:
+            r = sampler(ss, False).array_via_func_from(func, None if len(ss) % 2 else object())
         out = qlist(r)
         coq = f"KViaFunc {cbool(ex)} {cmask(m)} {cqq(psq)} {cqq(ogq)} {cnats(ss)} {cufun(inp['f'])} {cqs(out)}"
     elif op in ("decor", "iter"):
@@ -384,6 +389,8 @@ def run_case(inp):
             elif os["kind"] == "map": osobj = OverSamplingUniform(sub_size=aa.Array2D(values=np.array(os["ss"], dtype=float if os.get("fl") else int), mask=mask))
             else: osobj = OverSamplingIterate(fractional_accuracy=fl(os["thr"]), relative_accuracy=fl(os["rel"]), sub_steps=list(os["steps"]))
             if inp["via"] == "dataset": grid = GridsDataset(mask=mask, over_sampling=OverSamplingDataset(uniform=osobj)).uniform
+            elif inp["via"] == "dataset_nu": grid = GridsDataset(mask=mask, over_sampling=OverSamplingDataset(non_uniform=osobj)).non_uniform
+            elif inp["via"] == "dataset_pixgrid": grid = GridsDataset(mask=mask, over_sampling=OverSamplingDataset(pixelization=osobj)).pixelization
             else: grid = aa.Grid2D.from_mask(mask=mask, over_sampling=osobj)
             res = call_res(lambda: Profile(fn).image_2d_from(grid))
         out = res if res[0] == "raise" else ("ok", qlist(res[1]))
